@@ -11,7 +11,15 @@ R09b Pause does not overwrite an outstanding capture: the capture is guarded by 
 R09c ownership: _prev_state is written only by the command classes and Engine.__init__.
 R09d model check: in no reachable state did _apply_state restore a stale or safe-valued capture
      (shortest history printed otherwise).
-Decides that a captured state cannot outlive its pause; equality of tag values is value-level.
+R09e capture/restore completeness (verifies the call model the machine uses for _apply_safe_state/_apply_state):
+     in Engine._apply_safe_state the loop ranges over every write register that has a safe value; on *every* path
+     through its body the tag's pre-value (`tag.as_readonly()`) is appended to the captured list *before* the tag is
+     set to the safe value (no register is skipped - an output that happens to sit at its safe value when Pause runs
+     can still be changed while paused and must be restored); the function returns a TagValueCollection of exactly
+     that list; Engine._apply_state sets every tag of _iter_all_tags() that the state has to state.get(name).value,
+     under no further condition.
+Decides that a captured state cannot outlive its pause and that it covers every safe-valued output; equality of the
+tag values themselves is value-level.
 """
 from __future__ import annotations
 
@@ -19,7 +27,7 @@ import ast
 
 from ..model import AnchorError, norm, walk_no_nested
 from ..runstate import Explorer, CONTROL, show, sd, IMPL, ENGINE
-from ..util import cfg_of, call_attr, assigned_attrs
+from ..util import cfg_of, call_attr, assigned_attrs, node_calls
 from ..cfg import facts_at
 
 EXPLANATION = __doc__
@@ -29,7 +37,8 @@ def run(ctx) -> None:
     prog, res = ctx.prog, ctx.res
     for r, d in [("R09a", "pause exits / run boundaries clear or consume the captured state"),
                  ("R09b", "Pause does not re-capture over an outstanding capture"),
-                 ("R09c", "ownership of _prev_state"), ("R09d", "no stale or safe-valued restore reachable")]:
+                 ("R09c", "ownership of _prev_state"), ("R09d", "no stale or safe-valued restore reachable"),
+                 ("R09e", "capture covers every safe-valued output, before it is overwritten; restore applies every captured value")]:
         ctx.rule(r, d)
     eng = prog.cls(ENGINE)
     impl = prog.module(IMPL)
@@ -151,6 +160,92 @@ def run(ctx) -> None:
             ctx.fail("R09b", pause, n.ast, inst, "a Pause executed while already paused (two requests validated before either "
                      "ran, or a method Pause and a user Pause in one tick) captures the *safe* values: Unpause then restores "
                      "safe values instead of the outputs from before the pause")
+    # ---- R09e
+    ass = eng.find_method("_apply_safe_state")
+    aps = eng.find_method("_apply_state")
+    if ass is None or aps is None:
+        raise AnchorError("Engine._apply_safe_state/_apply_state missing")
+    ctx.analysed(ass)
+    ctx.analysed(aps)
+    ga = cfg_of(ass)
+    loops = [n for n in ga.nodes if n.kind == "for"]
+    if len(loops) != 1:
+        raise AnchorError("Engine._apply_safe_state: expected exactly one loop over the safe-valued registers")
+    lp = loops[0]
+    # the iterated collection: registers with Write direction and a safe value, no further filter
+    from ..util import local_single_defs
+    it_def = local_single_defs(ass).get(norm(lp.ast.iter)) if isinstance(lp.ast.iter, ast.Name) else lp.ast.iter
+    inst = "_apply_safe_state: iterates every write register with a safe value"
+    conds = []
+    if isinstance(it_def, ast.ListComp) and len(it_def.generators) == 1:
+        for i in it_def.generators[0].ifs:
+            conds += [norm(v) for v in (i.values if isinstance(i, ast.BoolOp) and isinstance(i.op, ast.And) else [i])]
+    if it_def is not None and isinstance(it_def, ast.ListComp) and "registers" in norm(it_def.generators[0].iter) \
+            and len(conds) == 2 and any("RegisterDirection.Write in" in c for c in conds) and any("'safe_value' in" in c for c in conds):
+        ctx.ok("R09e", inst)
+    else:
+        ctx.fail("R09e", ass, lp.ast, inst, f"the register selection is {conds or norm(lp.ast.iter)}: outputs with a safe value "
+                 "may be left out of the capture (and of the safe state)")
+
+    def is_capture(n):
+        return any(call_attr(c) == "append" and c.args and isinstance(c.args[0], ast.Call) and call_attr(c.args[0]) == "as_readonly"
+                   for c in n.calls())
+
+    def sets_safe(n):
+        return any(call_attr(c) == "set_value" and c.args and "safe_value" in norm(c.args[0]) for c in n.calls()) or any(
+            call_attr(c) == "set_value" and c.args and isinstance(c.args[0], ast.Name) and "safe_value" in norm(
+                local_single_defs(ass).get(c.args[0].id, c.args[0])) for c in n.calls())
+    cap_nodes = [n for n in ga.nodes if is_capture(n)]
+    set_nodes = [n for n in ga.nodes if sets_safe(n)]
+    if not cap_nodes or not set_nodes:
+        raise AnchorError("Engine._apply_safe_state: capture (append(tag.as_readonly())) or safe write (set_value(safe_value)) not found")
+    inst = "_apply_safe_state: every register's pre-value is captured on every path of the loop body"
+    p_skip = ga.search([(lp.id, "loop")], lambda n: n.id == lp.id, blocked=is_capture, follow_exc=False)
+    if p_skip is not None:
+        ctx.fail("R09e", ass, lp.ast, inst, "a path through the loop body skips the capture: an output left out of the captured "
+                 "state (e.g. because it already holds its safe value) is not restored by Unpause although it can be changed "
+                 "while the engine is paused", p_skip)
+    else:
+        ctx.ok("R09e", inst)
+    inst = "_apply_safe_state: the pre-value is captured before the tag is overwritten with the safe value"
+    p_late = ga.search([(lp.id, "loop")], sets_safe, blocked=is_capture, follow_exc=False)
+    if p_late is not None:
+        ctx.fail("R09e", ass, set_nodes[0].ast, inst, "the safe value is written before the previous value was captured: the "
+                 "capture holds the safe value", p_late)
+    else:
+        ctx.ok("R09e", inst)
+    # the returned collection is built from the captured list
+    cap_list = {norm(c.func.value) for n in cap_nodes for c in n.calls() if call_attr(c) == "append"}
+    rets = [n for n in ga.nodes if n.kind == "stmt" and isinstance(n.ast, ast.Return)]
+    for r in rets:
+        inst = f"_apply_safe_state: {r.text()}"
+        v = r.ast.value
+        if isinstance(v, ast.Call) and call_attr(v) == "TagValueCollection" and len(v.args) == 1 and norm(v.args[0]) in cap_list \
+                and len(cap_list) == 1:
+            ctx.ok("R09e", inst)
+        else:
+            ctx.fail("R09e", ass, r.ast, inst, "the returned state is not the collection of all captured pre-values")
+    gp = cfg_of(aps)
+    ploops = [n for n in gp.nodes if n.kind == "for"]
+    inst = "_apply_state: every tag present in the state is set to its captured value"
+    okp = False
+    if len(ploops) == 1 and "_iter_all_tags" in norm(ploops[0].ast.iter) and isinstance(ploops[0].ast.target, ast.Name):
+        tv = ploops[0].ast.target.id
+        sets = [n for n in gp.nodes if any(call_attr(c) == "set_value" and norm(c.func) == f"{tv}.set_value" for c in n.calls())]
+        if len(sets) == 1:
+            conds2 = [(norm(e), pol) for e, pol in gp.conditions_at(sets[0])]
+            sv = next(c for c in sets[0].calls() if call_attr(c) == "set_value")
+            val = sv.args[0] if sv.args else None
+            vdef = local_single_defs(aps).get(norm(val).split(".")[0]) if val is not None else None
+            src_ok = val is not None and norm(val).endswith(".value") and (
+                f"state.get({tv}.name)" in norm(val) or (vdef is not None and norm(vdef) == f"state.get({tv}.name)"))
+            if conds2 == [(f"state.has({tv}.name)", True)] and src_ok:
+                okp = True
+    if okp:
+        ctx.ok("R09e", inst)
+    else:
+        ctx.fail("R09e", aps, aps.node, inst, "the restore is conditional on more than `state.has(tag.name)` or does not write "
+                 "state.get(tag.name).value: some captured outputs are not put back")
     # ---- R09c
     for f in prog.iter_functions():
         for t, v, st in assigned_attrs(f.node):
